@@ -626,6 +626,7 @@ impl<'a> Parser<'a> {
                         _ => {}
                     },
                     _ => {
+                        self.prev_token();
                         break;
                     }
                 }
